@@ -271,6 +271,8 @@ pub struct StateOpts {
     pub clone_product: u8,
     /// run the read-only battery once more with the cache's memory mprotect'ed
     pub trap: bool,
+    /// drive the borrowing iterators through every next/next_back pattern
+    pub borrow_patterns: bool,
 }
 
 /// Key ids used for lookups: the universe plus one id that is never stored.
@@ -422,7 +424,7 @@ pub fn check_state(
         ro("Debug formatting", &mut viol);
 
         // borrowing iterator patterns
-        if ctx.sel & (p(12) | p(19) | p(7)) != 0 {
+        if opts.borrow_patterns && ctx.sel & (p(12) | p(19) | p(7)) != 0 {
             st.rule("C12.borrowing");
             let pats = if n <= opts.exhaustive_pat_len { all_patterns(n + 3) } else { family_patterns(n + 3) };
             for kind in [IterKind::Iter, IterKind::Keys, IterKind::Values] {
